@@ -115,4 +115,11 @@ MRankByCount(k, R) == Cardinality({Q \in SUBSET MCells(k) : MShadeLess(Q, R)})
 MRankTable(p) == {[R |-> R, r |-> MRank(MMesh(p, R))] : R \in SUBSET MCells(Len(p))}
 MUnrankIn(tab, r) == (CHOOSE e \in tab : e.r = r).R
 MValidRankIn(tab, r) == \E e \in tab : e.r = r
+\* the rank of a shading of a grid with more than 31 cells, as a base-10000 numeral: the binary numeral whose digit
+\* number x (k + 1) + y says whether cell <<x, y>> is shaded, read from the most significant digit down
+RECURSIVE MBigRankFrom(_, _, _)
+MBigRankFrom(M, idx, acc) ==
+    IF idx < 0 THEN acc
+    ELSE MBigRankFrom(M, idx - 1, LBigMulAdd(acc, 2, IF <<idx \div (Len(M.p) + 1), idx % (Len(M.p) + 1)>> \in M.R THEN 1 ELSE 0))
+MBigRank(M) == MBigRankFrom(M, (Len(M.p) + 1) * (Len(M.p) + 1) - 1, <<>>)
 =============================================================================
